@@ -381,15 +381,35 @@ def shimUpdate (c : Cfg) (s : BState) (rev : Int) (key val : Bytes) : Except EEr
 
 /-! ### Range -/
 
-def getPartitionMagic : Int := 1888
+/-- `GetPartitionMagic` (kv.go): the value is REGENERATED from /repo (`Generated.partitionMagic`; pinned to 1888 by
+`KB.C16.magic_guard_as_in_source`) -/
+def getPartitionMagic : Int := (Generated.partitionMagic : Nat)
 
 def liftScan {α : Type} : ScanRes α → Except EErr α
   | .ok a => .ok a
   | .error e => .error (.backend e)
   | .panic => .error .panic
 
-/-- `RPCServer.Range`: empty `range_end` ⇒ Get; else revision 1888 ⇒ partition listing; else
-`count_only` ⇒ Count; else List. Options not named here are not looked at.
+/-- The GUARD of the partition-listing branch of `RPCServer.Range` (kv.go, /repo e617587):
+`r.Revision == GetPartitionMagic && r.Limit == 0 && !r.CountOnly` — the request of a kubebrain-aware client for the
+partition borders carries neither a limit nor `count_only`; a page of a paginated list (`limit > 0`; `Limit` is an
+int64: a NEGATIVE limit is not 0 either) or a count at an explicit revision that happens to be the magic is an
+ordinary read. The conjuncts are regenerated from the source (`Generated.partitionMagicGuard`,
+`KB.C16.magic_guard_as_in_source`, `KB.C16.range_dispatch_as_in_source`). -/
+def magicGuard (r : RangeReq) : Bool := r.revision == getPartitionMagic && r.limit == 0 && !r.countOnly
+
+/-- the guard BEFORE /repo e617587: the revision alone; only for the refutation -/
+def magicGuardOld (r : RangeReq) : Bool := r.revision == getPartitionMagic
+
+/-- `backendShim.GetPartitions`: the partition borders of the engine as key-values (internal keys, no value, mod
+revision 0), `Count` = number of partitions + 1, no more — whatever the history is. -/
+def partitionListing (c : Cfg) (s : BState) (r : RangeReq) : RangeResp :=
+  { hdr := s.committed, kvs := (doPartitions c r.key r.rangeEnd).map (fun k => (k, [], 0)),
+    count := (partitions c.splits (encodeBound r.key) (encodeBound r.rangeEnd)).length + 1, more := false }
+
+/-- `RPCServer.Range`: empty `range_end` ⇒ Get; else `magicGuard` (revision 1888, NO limit, NOT `count_only` —
+/repo e617587; before: revision 1888 alone, `shimRangeOld`) ⇒ partition listing; else `count_only` ⇒ Count; else List.
+Options not named here are not looked at.
 `backendShim.Count` (/repo 5f2847c): a count at an explicit revision (`revision > 0`) is the size of the
 range read `backend.List` answers at THAT revision (no limit) — so it is refused below the compaction floor
 and with the bounds List refuses; only revision 0 goes to `backend.Count` (current revision, bounds unchecked). -/
@@ -397,10 +417,8 @@ def shimRange (c : Cfg) (s : BState) (r : RangeReq) : Except EErr RangeResp :=
   if r.rangeEnd.isEmpty then
     let (hdr, kv) := doGet c s r.key (toU64 r.revision)
     .ok { hdr := hdr, kvs := kv.toList, count := if kv.isSome then 1 else 0, more := false }
-  else if r.revision == getPartitionMagic then
-    let n := (partitions c.splits (encodeBound r.key) (encodeBound r.rangeEnd)).length
-    .ok { hdr := s.committed, kvs := (doPartitions c r.key r.rangeEnd).map (fun k => (k, [], 0)),
-          count := n + 1, more := false }
+  else if magicGuard r then
+    .ok (partitionListing c s r)
   else if r.countOnly then
     if r.revision > 0 then
       match liftScan (doList c s r.key r.rangeEnd (toU64 r.revision) 0) with
@@ -415,6 +433,100 @@ def shimRange (c : Cfg) (s : BState) (r : RangeReq) : Except EErr RangeResp :=
     | .ok res => .ok { hdr := res.hdr, kvs := res.kvs, count := res.kvs.length + (if res.more then 1 else 0),
                        more := res.more }
     | .error e => .error e
+
+/-- `RPCServer.Range` BEFORE /repo e617587 (`magicGuardOld`: the magic revision was tested before limit and
+`count_only` were looked at); only for the refutation `KB.C16.old_magic_swallowed_page_two` -/
+def shimRangeOld (c : Cfg) (s : BState) (r : RangeReq) : Except EErr RangeResp :=
+  if r.rangeEnd.isEmpty then
+    let (hdr, kv) := doGet c s r.key (toU64 r.revision)
+    .ok { hdr := hdr, kvs := kv.toList, count := if kv.isSome then 1 else 0, more := false }
+  else if magicGuardOld r then
+    .ok (partitionListing c s r)
+  else if r.countOnly then
+    if r.revision > 0 then
+      match liftScan (doList c s r.key r.rangeEnd (toU64 r.revision) 0) with
+      | .ok res => .ok { hdr := res.hdr, kvs := [], count := res.kvs.length, more := false }
+      | .error e => .error e
+    else
+    match liftScan (doCount c s r.key r.rangeEnd) with
+    | .ok (hdr, n) => .ok { hdr := hdr, kvs := [], count := n, more := false }
+    | .error e => .error e
+  else
+    match liftScan (doList c s r.key r.rangeEnd (toU64 r.revision) r.limit.toNat) with
+    | .ok res => .ok { hdr := res.hdr, kvs := res.kvs, count := res.kvs.length + (if res.more then 1 else 0),
+                       more := res.more }
+    | .error e => .error e
+
+/-- which branch of `RPCServer.Range` answers a request (the `methodTag` of kv.go) -/
+inductive RangeBranch where
+  | get | partitions | count | list
+  deriving Repr, DecidableEq
+
+/-- the backendshim method a branch calls -/
+def RangeBranch.method : RangeBranch → String
+  | .get => "Get"
+  | .partitions => "GetPartitions"
+  | .count => "Count"
+  | .list => "List"
+
+/-- the `if` chain of `RPCServer.Range` alone -/
+def rangeBranch (r : RangeReq) : RangeBranch :=
+  if r.rangeEnd.isEmpty then .get
+  else if magicGuard r then .partitions
+  else if r.countOnly then .count
+  else .list
+
+/-- `RPCServer.Range` WITHOUT the in-band partition protocol (what an etcd-only endpoint would dispatch to):
+Get / Count / List by `range_end` and `count_only` alone. `KB.C16.partition_listing_only_for_plain_unlimited`: outside
+the partition-listing branch `shimRange` IS this function. -/
+def shimRangePlain (c : Cfg) (s : BState) (r : RangeReq) : Except EErr RangeResp :=
+  if r.rangeEnd.isEmpty then
+    let (hdr, kv) := doGet c s r.key (toU64 r.revision)
+    .ok { hdr := hdr, kvs := kv.toList, count := if kv.isSome then 1 else 0, more := false }
+  else if r.countOnly then
+    if r.revision > 0 then
+      match liftScan (doList c s r.key r.rangeEnd (toU64 r.revision) 0) with
+      | .ok res => .ok { hdr := res.hdr, kvs := [], count := res.kvs.length, more := false }
+      | .error e => .error e
+    else
+    match liftScan (doCount c s r.key r.rangeEnd) with
+    | .ok (hdr, n) => .ok { hdr := hdr, kvs := [], count := n, more := false }
+    | .error e => .error e
+  else
+    match liftScan (doList c s r.key r.rangeEnd (toU64 r.revision) r.limit.toNat) with
+    | .ok res => .ok { hdr := res.hdr, kvs := res.kvs, count := res.kvs.length + (if res.more then 1 else 0),
+                       more := res.more }
+    | .error e => .error e
+
+/-! #### the regenerated dispatch table read as a program
+
+`Generated.rangeDispatch` is the `if` / `else if` chain of `RPCServer.Range` as the extractor finds it in kv.go: rows
+(conjuncts of the guard, backend method). `dispatchBy` runs such a table on a request; an atom this model does not
+know makes it answer `none` (so a guard with a new conjunct, an `||`, another field … breaks
+`KB.C16.range_dispatch_as_in_source` instead of being ignored). -/
+
+def atomHolds (a : String) (r : RangeReq) : Option Bool :=
+  if a = "len(RangeEnd)==0" then some r.rangeEnd.isEmpty
+  else if a = "Revision==GetPartitionMagic" then some (r.revision == getPartitionMagic)
+  else if a = "Limit==0" then some (r.limit == 0)
+  else if a = "!CountOnly" then some (!r.countOnly)
+  else if a = "CountOnly" then some r.countOnly
+  else none
+
+def guardHolds : List String → RangeReq → Option Bool
+  | [], _ => some true
+  | a :: rest, r =>
+    match atomHolds a r, guardHolds rest r with
+    | some x, some y => some (x && y)
+    | _, _ => none
+
+def dispatchBy : List (List String × String) → RangeReq → Option String
+  | [], _ => none
+  | (g, m) :: rest, r =>
+    match guardHolds g r with
+    | some true => some m
+    | some false => dispatchBy rest r
+    | none => none
 
 /-! ### Watch events (backendShim.Watch) -/
 
